@@ -59,6 +59,15 @@ type FuncContract struct {
 	Loops    map[string]*LoopContract
 	Line     int
 	Ghosts   []string
+	Asserts  []*AssertClause
+}
+
+// AssertClause: an intermediate assertion placed after the k-th assignment to a variable
+// (proved as an obligation, then available as a fact).
+type AssertClause struct {
+	Var string
+	Occ int
+	Cl  *Clause
 }
 
 func (fc *FuncContract) Key() string {
@@ -87,7 +96,7 @@ type Contracts struct {
 	File    string
 }
 
-var keywordRe = regexp.MustCompile(`^(spec|axiom|lemma|func|props|tier|arith|pure|inline|trusted|nosafety|requires|ensures|panics|modifies|loop|ghost)\b`)
+var keywordRe = regexp.MustCompile(`^(spec|axiom|lemma|func|props|tier|arith|pure|inline|trusted|nosafety|requires|ensures|expect|panics|modifies|loop|ghost|assert)\b`)
 var labelRe = regexp.MustCompile(`^\[([A-Za-z0-9_.\-]+)\]\s*`)
 
 func (c *Contracts) newClause(kind, text string, line int) *Clause {
@@ -203,6 +212,25 @@ func ParseContracts(path string) (*Contracts, error) {
 				cur.Requires = append(cur.Requires, c.newClause("requires", rest, it.line))
 			case "ensures":
 				cur.Ensures = append(cur.Ensures, c.newClause("ensures", rest, it.line))
+			case "expect":
+				// checked like ensures, but never assumed by callers (used for clauses that
+				// are known not to hold on the current tree: known findings)
+				cl := c.newClause("expect", rest, it.line)
+				cur.Ensures = append(cur.Ensures, cl)
+			case "assert":
+				// assert after VAR[#k] [label] EXPR
+				w1, r1 := splitWord(rest)
+				if w1 != "after" {
+					return nil, fmt.Errorf("%s:%d: assert needs 'after VAR'", path, it.line)
+				}
+				v, r2 := splitWord(r1)
+				occ := 0
+				if i := strings.Index(v, "#"); i >= 0 {
+					fmt.Sscanf(v[i+1:], "%d", &occ)
+					v = v[:i]
+				}
+				cl := c.newClause("assert", r2, it.line)
+				cur.Asserts = append(cur.Asserts, &AssertClause{Var: v, Occ: occ, Cl: cl})
 			case "panics":
 				cur.Panics = c.newClause("panics", rest, it.line)
 			case "modifies":
